@@ -471,6 +471,7 @@ pub fn workload(name: &str, tier: &str) -> Option<Box<dyn Workload>> {
     }
     match name {
         "c16" => Some(Box::new(c16::Positions::new(quick))),
+        "c16nav" => Some(Box::new(c16::LspRanges { n: if quick { 100 } else { 3000 } })),
         "miri" => Some(Box::new(miri::MiriCases)),
         "c13" => Some(Box::new(c13::Workspaces {
             n: if quick { 1500 } else { 12_000 },
